@@ -17,7 +17,7 @@
 (* Impl layer: IOp / IEval, the operator overloads of                      *)
 (* formulae/terms/terms.py transcribed class by class on ordered lists.    *)
 (***************************************************************************)
-EXTENDS Naturals, Sequences, FiniteSets, TLC
+EXTENDS Naturals, Sequences, FiniteSets, SequencesExt, TLC
 
 (* ------------------------------ Abs ------------------------------------- *)
 Inter(l, r) == { s \cup t : s \in l, t \in r }
@@ -104,13 +104,14 @@ G(e, f) == [cls |-> "G", e |-> e, f |-> f]
 M(ct, gt) == [cls |-> "M", ct |-> ct, gt |-> gt]
 
 InSeq(x, s) == \E k \in 1..Len(s) : s[k] = x
-RECURSIVE Dedup(_)
+\* first occurrences, in order (not recursive: sequences can be long)
 Dedup(s) ==
-  IF s = <<>> THEN <<>>
-  ELSE LET r == Dedup(SubSeq(s, 1, Len(s) - 1)) IN IF InSeq(s[Len(s)], r) THEN r ELSE Append(r, s[Len(s)])
+  LET keep == {k \in 1..Len(s) : \A j \in 1..(k - 1) : s[j] # s[k]}
+      idx == SetToSortSeq(keep, LAMBDA a, b : a < b)
+  IN [q \in 1..Len(idx) |-> s[idx[q]]]
 Canon(c, sm) == IF sm THEN SelectSeq(AtomOrder, LAMBDA x : InSeq(x, c)) ELSE Dedup(c)
 TJoin(a, b, sm) == T(Canon(a.c \o b.c, sm))
-RemoveFirst(s, x) ==
+RemFirst(s, x) ==
   IF ~InSeq(x, s) THEN s
   ELSE LET k == CHOOSE k \in 1..Len(s) : s[k] = x /\ \A j \in 1..(k - 1) : s[j] # x
        IN SubSeq(s, 1, k - 1) \o SubSeq(s, k + 1, Len(s))
@@ -134,7 +135,7 @@ MAddM(m, o) == AddAll(m, o.ct \o o.gt)
 RECURSIVE RemoveAll(_, _)
 RemoveAll(m, ts) ==
   IF ts = <<>> THEN m
-  ELSE RemoveAll(M(RemoveFirst(m.ct, ts[1]), RemoveFirst(m.gt, ts[1])), Tail(ts))
+  ELSE RemoveAll(M(RemFirst(m.ct, ts[1]), RemFirst(m.gt, ts[1])), Tail(ts))
 \* components of the Term members of common_terms (Model.common_components)
 CC(m) == Flat(Map(SelectSeq(m.ct, LAMBDA t : t.cls = "T"), LAMBDA t : t.c))
 TermSet(m) == {m.ct[k] : k \in 1..Len(m.ct)} \cup {m.gt[k] : k \in 1..Len(m.gt)}
@@ -157,7 +158,7 @@ IAdd(l, r) ==
          IF l = r THEN l
          ELSE (CASE r.cls = "T" -> MK(<<l, r>>) [] r.cls = "M" -> MAddM(MK(<<l>>), r) [] OTHER -> X)
     [] l.cls = "M" ->
-         (CASE r.cls = "N" -> M(RemoveFirst(l.ct, I), l.gt)
+         (CASE r.cls = "N" -> M(RemFirst(l.ct, I), l.gt)
             [] r.cls \in {"T", "G", "I"} -> AddTerm(l, r)
             [] r.cls = "M" -> MAddM(l, r)
             [] OTHER -> X)
@@ -172,8 +173,8 @@ ISub(l, r) ==
             [] r.cls = "M" -> (IF InSeq(l, r.ct) THEN MK(<<>>) ELSE l) [] OTHER -> X)
     [] l.cls = "M" ->
          (CASE r.cls = "M" -> RemoveAll(l, r.ct \o r.gt)
-            [] r.cls \in {"T", "I"} -> M(RemoveFirst(l.ct, r), l.gt)
-            [] r.cls = "G" -> M(l.ct, RemoveFirst(l.gt, r))
+            [] r.cls \in {"T", "I"} -> M(RemFirst(l.ct, r), l.gt)
+            [] r.cls = "G" -> M(l.ct, RemFirst(l.gt, r))
             [] OTHER -> X)
     [] OTHER -> X
 
@@ -235,8 +236,8 @@ IBar(l, r) ==
          IF Len(l.ct) = 1 THEN IBar(l.ct[1], r)
          ELSE LET hasI == InSeq(I, l.ct)
                   hasN == InSeq(N, l.ct)
-                  ct == IF hasI /\ hasN THEN RemoveFirst(RemoveFirst(l.ct, I), N)
-                        ELSE IF hasN THEN RemoveFirst(l.ct, N)
+                  ct == IF hasI /\ hasN THEN RemFirst(RemFirst(l.ct, I), N)
+                        ELSE IF hasN THEN RemFirst(l.ct, N)
                         ELSE IF ~hasI THEN <<I>> \o l.ct ELSE l.ct
               IN (CASE r.cls = "T" -> MK(Map(ct, LAMBDA t : G(t, r)))
                     [] r.cls = "M" -> MK(Flat(Map(ct, LAMBDA t : Map(r.ct, LAMBDA f : G(t, f)))))
